@@ -33,6 +33,7 @@ def parseCheck (s : String) : Option Check :=
   | ["out", n] => n.toNat?.map .out
   | ["naudio", n] => n.toNat?.map .nAudio
   | ["srfirst"] => some .srFirst
+  | ["duty"] => some .duty
   | _ => none
 
 def parseEv (line : String) : Option Ev :=
